@@ -33,11 +33,11 @@ extern "C" int gsl_integration_qng(const gsl_function * f, double a, double b, d
 enum Call
 {
   CAT_DBD, CAT_BKG, ISO_MO100, ISO_CO60, ISO_UNKNOWN, LEV_0, LEV_1, LEV_9, MODE_1, MODE_4, MODE_8, MODE_20, MODE_21,
-  LABEL_2NUBB, LABEL_BAD, ESUM_OK, ESUM_INV, ADD_OP, ADD_NULL, INIT, SHOOT, RESET, RECREATE, VERSION, NCALLS
+  LABEL_2NUBB, LABEL_BAD, ESUM_OK, ESUM_INV, ESUM_NONE, ESUM_LO, ESUM_HI, ESUM_ABOVE, ADD_OP, ADD_NULL, INIT, SHOOT, RESET, RECREATE, VERSION, NCALLS
 };
 static const char * CALL_NAME[] = {"set_decay_category(DBD)", "set_decay_category(BACKGROUND)", "set_decay_isotope(Mo100)", "set_decay_isotope(Co60)", "set_decay_isotope(Xx1)",
   "set_decay_dbd_level(0)", "set_decay_dbd_level(1)", "set_decay_dbd_level(9)", "set_decay_dbd_mode(1)", "set_decay_dbd_mode(4)", "set_decay_dbd_mode(8)", "set_decay_dbd_mode(20)", "set_decay_dbd_mode(21)",
-  "set_decay_dbd_mode_by_label(2nubb)", "set_decay_dbd_mode_by_label(nope)", "set_decay_dbd_esum_range(0.5,2.0)", "set_decay_dbd_esum_range(2.0,0.5)", "add_operation(mdl)", "add_operation(null)",
+  "set_decay_dbd_mode_by_label(2nubb)", "set_decay_dbd_mode_by_label(nope)", "set_decay_dbd_esum_range(0.5,2.0)", "set_decay_dbd_esum_range(2.0,0.5)", "set_decay_dbd_esum_range(NaN,NaN)", "set_decay_dbd_esum_range(1.0,NaN)", "set_decay_dbd_esum_range(NaN,2.5)", "set_decay_dbd_esum_range(5.0,6.0)", "add_operation(mdl)", "add_operation(null)",
   "initialize", "shoot", "reset", "destroy+recreate", "set_decay_version(x)"};
 
 struct Model
@@ -100,7 +100,7 @@ static bool run_sequence(const std::vector<int> & seq, PFail & f, Stats & st, bo
     int c = seq[k]; st.steps++;
     bool expect_throw = false; bool threw = false; std::string what;
     Model next = m;
-    bool is_setter = c <= ESUM_INV || c == VERSION;
+    bool is_setter = c <= ESUM_ABOVE || c == VERSION;
     if (is_setter) {
       expect_throw = m.init;
       if (!expect_throw) switch (c) {
@@ -110,6 +110,7 @@ static bool run_sequence(const std::vector<int> & seq, PFail & f, Stats & st, bo
       case MODE_1: next.mode = 1; break; case MODE_4: next.mode = 4; break; case MODE_8: next.mode = 8; break; case MODE_20: next.mode = 20; break; case MODE_21: next.mode = 21; break;
       case LABEL_2NUBB: next.mode = 4; break; case LABEL_BAD: next.mode = 0; break;
       case ESUM_OK: next.emin = 0.5; next.emax = 2.0; break; case ESUM_INV: next.emin = 2.0; next.emax = 0.5; break;
+      case ESUM_NONE: next.emin = next.emax = NAN; break; case ESUM_LO: next.emin = 1.0; next.emax = NAN; break; case ESUM_HI: next.emin = NAN; next.emax = 2.5; break; case ESUM_ABOVE: next.emin = 5.0; next.emax = 6.0; break;
       case VERSION: next.ver = "x"; break;
       }
     }
@@ -133,6 +134,10 @@ static bool run_sequence(const std::vector<int> & seq, PFail & f, Stats & st, bo
       case LABEL_BAD: g->set_decay_dbd_mode_by_label("nope"); break;
       case ESUM_OK: g->set_decay_dbd_esum_range(0.5, 2.0); break;
       case ESUM_INV: g->set_decay_dbd_esum_range(2.0, 0.5); break;
+      case ESUM_NONE: g->set_decay_dbd_esum_range(NAN, NAN); break;
+      case ESUM_LO: g->set_decay_dbd_esum_range(1.0, NAN); break;
+      case ESUM_HI: g->set_decay_dbd_esum_range(NAN, 2.5); break;
+      case ESUM_ABOVE: g->set_decay_dbd_esum_range(5.0, 6.0); break;
       case VERSION: g->set_decay_version("x"); break;
       case ADD_OP: expect_throw = m.init; if (!expect_throw) next.nops++; g->add_operation(make_op()); break;
       case ADD_NULL: expect_throw = true; g->add_operation(bxdecay0::event_op_ptr()); break;
@@ -170,6 +175,7 @@ static bool run_sequence(const std::vector<int> & seq, PFail & f, Stats & st, bo
       // bring the fresh instance to the same shot number: each shot uses its own tape, so no catch-up is needed
       bxdecay0::event e2; Tape t; t.seed = mix(99, shot); TapeRandom r(t, 0, 100000); f2.shoot(r, e2);
       if (!same_event(ev, e2)) return fail((int)k, "event-differs-from-fresh", "shoot() after this history yields a different event than a fresh instance with the same configuration and deviates");
+      if (m.cat == 1 && !(g->get_to_all_events() == f2.get_to_all_events())) return fail((int)k, "toallevents-differs-from-fresh", "get_to_all_events()=" + jnum(g->get_to_all_events()) + " after this history, a fresh instance with the same configuration reports " + jnum(f2.get_to_all_events()));
       shot++;
     }
     // getters
@@ -185,8 +191,8 @@ static bool run_sequence(const std::vector<int> & seq, PFail & f, Stats & st, bo
     if ((int)x.get_decay_dbd_mode() != m.mode || x.has_decay_dbd_mode() != (m.mode != 0)) return fail((int)k, "getter:mode", "get_decay_dbd_mode()=" + std::to_string((int)x.get_decay_dbd_mode()) + " expected " + std::to_string(m.mode) + where);
     bool hr = !std::isnan(m.emin) && !std::isnan(m.emax);
     if (x.has_decay_dbd_esum_range() != hr) return fail((int)k, "getter:esum", "has_decay_dbd_esum_range() wrong" + where);
-    if (hr && (x.get_decay_dbd_esum_range_lower() != m.emin || x.get_decay_dbd_esum_range_upper() != m.emax)) return fail((int)k, "getter:esum", "energy range getters wrong" + where);
-    if (!hr && !(std::isnan(x.get_decay_dbd_esum_range_lower()) && std::isnan(x.get_decay_dbd_esum_range_upper()))) return fail((int)k, "getter:esum", "energy range getters not at defaults" + where);
+    auto same = [](double u, double v) { return (std::isnan(u) && std::isnan(v)) || u == v; };
+    if (!same(x.get_decay_dbd_esum_range_lower(), m.emin) || !same(x.get_decay_dbd_esum_range_upper(), m.emax)) return fail((int)k, "getter:esum", "energy range getters report (" + jnum(x.get_decay_dbd_esum_range_lower()) + "," + jnum(x.get_decay_dbd_esum_range_upper()) + "), expected (" + jnum(m.emin) + "," + jnum(m.emax) + ")" + where);
     if ((int)x.get_operations().size() != m.nops) return fail((int)k, "getter:operations", "get_operations().size()=" + std::to_string(x.get_operations().size()) + " expected " + std::to_string(m.nops) + where);
     if (x.get_event_count() != m.count) return fail((int)k, "getter:event_count", "get_event_count()=" + std::to_string(x.get_event_count()) + " expected " + std::to_string(m.count) + where);
     if (!x.has_next()) return fail((int)k, "getter:has_next", "has_next() is false" + where);
@@ -259,6 +265,37 @@ int main(int argc, char ** argv)
       }
     }
     cx.rep.counters["exhaustive_sequences_total"] = total; cx.rep.counters["exhaustive_maxlen"] = maxlen;
+    // (a') failure-recovery family, enumerated completely: valid configuration ; one call that spoils it ; initialize (refused) ; the call that
+    // repairs it ; EVERY sequence of 0..2 further calls ; initialize ; shoot ; shoot.  (A failed initialisation must leave the object usable and
+    // indistinguishable from a fresh one: the depth-4 enumeration is too short to configure, fail, repair and shoot.)
+    {
+      struct Pre { std::vector<int> calls; int iso, lev, mode; };
+      std::vector<Pre> pres;
+      for (int w : {-1, (int)ESUM_OK, (int)ESUM_LO, (int)ESUM_HI}) {
+        Pre a1{{CAT_DBD, ISO_MO100, LEV_0, MODE_4}, ISO_MO100, LEV_0, MODE_4}, a2{{CAT_DBD, ISO_MO100, LEV_1, MODE_8}, ISO_MO100, LEV_1, MODE_8};
+        if (w >= 0) { a1.calls.push_back(w); a2.calls.push_back(w); }
+        pres.push_back(a1); pres.push_back(a2);
+      }
+      pres.push_back(Pre{{CAT_DBD, ISO_MO100, LEV_0, MODE_1}, ISO_MO100, LEV_0, MODE_1});
+      pres.push_back(Pre{{CAT_BKG, ISO_CO60}, ISO_CO60, -1, -1});
+      uint64_t fam = 0, famrun = 0;
+      for (auto & pr : pres) {
+        bool dbd = pr.calls[0] == CAT_DBD; int wcall = (dbd && pr.calls.size() == 5) ? pr.calls[4] : (int)ESUM_NONE;
+        std::vector<std::pair<int, int>> breakers = {{ISO_UNKNOWN, pr.iso}};
+        if (dbd) { breakers.push_back({LEV_9, pr.lev}); breakers.push_back({MODE_21, pr.mode}); breakers.push_back({CAT_BKG, CAT_DBD}); breakers.push_back({ESUM_INV, wcall}); breakers.push_back({ESUM_ABOVE, wcall}); }
+        for (auto & br : breakers) {
+          for (int t1 = -1; t1 < (int)NCALLS; t1++) for (int t2 = -1; t2 < (int)NCALLS; t2++) {
+            if (t1 < 0 && t2 >= 0) continue;
+            uint64_t id = fam++; if ((id % nsh) != (uint64_t)shard) continue;
+            std::vector<int> seq = pr.calls; seq.push_back(br.first); seq.push_back(INIT); seq.push_back(br.second);
+            if (t1 >= 0) seq.push_back(t1); if (t2 >= 0) seq.push_back(t2);
+            seq.push_back(INIT); seq.push_back(SHOOT); seq.push_back(SHOOT);
+            eval(cx, seq); famrun++;
+          }
+        }
+      }
+      cx.rep.counters["failure_recovery_sequences_total"] = fam;
+    }
     // (b) rapidcheck: longer random sequences with whole-sequence shrinking
     uint64_t seed = a.i("seed", 1);
     std::string params = "seed=" + std::to_string(seed * 16 + shard + 1) + " max_success=" + std::to_string(rc_cases) + " max_size=100";
@@ -268,10 +305,10 @@ int main(int argc, char ** argv)
     bool okrc = rc::check("protocol sequences agree with the model", [&]() {
       auto body = *rc::gen::container<std::vector<int>>(rc::gen::resize(100, rc::gen::inRange(0, (int)NCALLS)));
       bool prefix = *rc::gen::arbitrary<bool>();
-      int which = *rc::gen::resize(100, rc::gen::inRange(0, 5));
+      int which = *rc::gen::resize(100, rc::gen::inRange(0, 6));
       std::vector<int> seq;
       if (prefix) {
-        static const std::vector<std::vector<int>> pre = {{CAT_DBD, ISO_MO100, LEV_0, MODE_1}, {CAT_BKG, ISO_CO60}, {CAT_DBD, ISO_MO100, LEV_1, MODE_8, ESUM_OK}, {CAT_DBD, ISO_MO100, LEV_0, MODE_21, INIT, MODE_1}, {CAT_DBD, ISO_UNKNOWN, LEV_0, MODE_1, INIT, ISO_MO100}};
+        static const std::vector<std::vector<int>> pre = {{CAT_DBD, ISO_MO100, LEV_0, MODE_1}, {CAT_BKG, ISO_CO60}, {CAT_DBD, ISO_MO100, LEV_1, MODE_8, ESUM_OK}, {CAT_DBD, ISO_MO100, LEV_0, MODE_21, INIT, MODE_1}, {CAT_DBD, ISO_UNKNOWN, LEV_0, MODE_1, INIT, ISO_MO100}, {CAT_DBD, ISO_MO100, LEV_9, MODE_4, ESUM_OK, INIT, LEV_0}};
         seq = pre[which];
       }
       seq.insert(seq.end(), body.begin(), body.end());
